@@ -45,6 +45,12 @@ class Report:
         self.floors = []          # (name, measured, floor)
 
     def add(self, o):
+        # the same obligation reported from several configurations is one obligation (it fails if any instance fails)
+        for old in self.obls:
+            if old.key == o.key:
+                if old.ok and not o.ok:
+                    old.ok, old.detail, old.witness, old.site = False, o.detail, o.witness, o.site
+                return old
         self.obls.append(o)
         return o
 
